@@ -663,6 +663,17 @@ func (w *Worker) assertion(id string, c *Term) {
 			capped = true
 		}
 		r, m = w.feasible(nc, true)
+		if r == Unknown && !(e.cfg.StopFlag != nil && atomic.LoadInt32(e.cfg.StopFlag) != 0) {
+			// counterexample search by model diversification (can only turn "unknown" into a replayable violation, never
+			// into "holds"): models of the path condition alone are cheap; ask for models in which one input at a time
+			// differs from the first one and evaluate the goal under each
+			if m2, ok := w.diversify(nc); ok {
+				r, m = Sat, m2
+				e.mu.Lock()
+				e.res.Diversified++
+				e.mu.Unlock()
+			}
+		}
 		if capped && r == Unknown {
 			// a goal that legitimately needs longer (the CRC step lemma takes ~9 s unloaded): the first few capped
 			// unknowns of a task are retried with the full per-query time-out
@@ -757,4 +768,37 @@ func altSolvers(kind string) []string {
 		return []string{"z3", "cvc5"}
 	}
 	return []string{"z3-new", "cvc5"}
+}
+
+// diversify looks for a model of the path condition under which goal (a negated assertion) evaluates to true
+func (w *Worker) diversify(goal *Term) (Model, bool) {
+	w.solver.nextTO = 5000
+	r, m0 := w.solver.Check(w.pc, nil, true)
+	if r != Sat || m0 == nil {
+		return nil, false
+	}
+	try := func(m Model) bool {
+		return w.tt.evalNamed(goal, m, map[int32]uint64{}) == 1
+	}
+	if try(m0) {
+		return m0, true
+	}
+	n := 0
+	for _, v := range w.nondets {
+		if n >= 16 {
+			break
+		}
+		if v.kind != KBV || v.name == "" {
+			continue
+		}
+		n++
+		for _, alt := range []*Term{w.tt.Not(w.tt.Eq(v, w.tt.BV(m0[v.name], int(v.w)))), w.tt.Eq(v, w.tt.BV(^uint64(0)>>(64-uint(v.w)), int(v.w)))} {
+			w.solver.nextTO = 3000
+			r, m := w.solver.Check(w.pc, alt, true)
+			if r == Sat && m != nil && try(m) {
+				return m, true
+			}
+		}
+	}
+	return nil, false
 }
